@@ -218,9 +218,10 @@ func Apply(doc *html.Node, opts *Options) (*Result, error) {
 		result.URL = opts.OriginalURL.String()
 	}
 
-	// Find pagination
+	// Find pagination. The links are compared with the host of the page URL,
+	// so a URL without one has no neighbours to look for.
 	timingInfo := ce.TimingInfo
-	if !opts.SkipPagination && opts.OriginalURL != nil {
+	if !opts.SkipPagination && opts.OriginalURL != nil && opts.OriginalURL.Host != "" {
 		paginationStart := time.Now()
 
 		if opts.PaginationAlgo == PageNumber {
